@@ -671,6 +671,9 @@ def canon(obs: Obs) -> Any:
 def run_work(work: tuple[Any, ...], pid: str) -> Result:
     item, bound, cap = work
     res = Result()
+    if item.get("conform"):
+        conform(item, res)
+        return res
     box: dict[str, Any] = {}
 
     def scenario(run: Run) -> None:
@@ -707,6 +710,70 @@ def run_work(work: tuple[Any, ...], pid: str) -> Result:
                 cap=2,
             )
     return res
+
+
+def conform(item: dict[str, Any], res: Result) -> None:
+    """Environment-model conformance: the scenario under the benign virtual schedule and on a real loopback TCP
+    connection (real event loop, real timeouts) must give the same operation outcomes and wire frames."""
+    from vf.engine.realnet import run_real
+
+    box: dict[str, Any] = {}
+    run_once(build(item, box), [], POLICY)
+    vobs: Obs = box["obs"]
+    virt = [(o[0], o[4], o[5] if len(o) > 5 and isinstance(o[5], bytes) else None) for o in vobs.ops]
+    vwire = make_proto(item).parse_wire(b"".join(d for _, d in vobs.wire))
+
+    proto = make_proto(item)
+    writes = [bytes.fromhex(a) for op, a in item["program"] if op == "write"]
+    frames = proto.connect_frames() + [proto.frame(n, t, writes) for n, t in item["frames"]]
+    gw = Gateway(proto, frames, item.get("seg", "one"), len(proto.connect_frames()))
+
+    async def client(host: str, port: int) -> list[Any]:
+        uri = proto.uri.replace("192.0.2.1:6801", f"{host}:{port}").replace("192.0.2.1:13400", f"{host}:{port}")
+        ops: list[Any] = []
+        try:
+            tr = await G[proto.name].connect(uri)
+        except BaseException as e:  # noqa: BLE001
+            return [("connect", "exc:" + type(e).__name__, None)]
+        prog = list(item["program"])
+        i = 0
+        consecutive = 0
+        while True:
+            if i < len(prog):
+                op, arg = prog[i]
+            else:
+                op, arg = "read", item.get("drain_timeout", 1.0)
+                if consecutive >= item.get("drain_n", 3):
+                    break
+            i += 1
+            try:
+                if op == "write":
+                    await tr.write(bytes.fromhex(arg))
+                    ops.append((op, "ok", None))
+                else:
+                    d = await tr.read(timeout=arg)
+                    ops.append((op, "ok", d))
+                    consecutive = 0
+            except TimeoutError:
+                ops.append((op, "timeout", None))
+                if i > len(prog):
+                    consecutive += 1
+            except OSError as e:
+                ops.append((op, "connerr" if isinstance(e, ConnectionError) else "oserror", None))
+                if i > len(prog):
+                    break
+        try:
+            await tr.close()
+        except Exception:  # noqa: BLE001
+            pass
+        return ops
+
+    real, conns = run_real(lambda n: gw if n == 0 else None, client, gap=0.02, timeout=60.0)
+    rwire = proto.parse_wire(bytes(conns[0].wire)) if conns else []
+    res.count("conformance_replays")
+    res.count("executions")
+    if real != virt or rwire != vwire:
+        raise RuntimeError(f"environment model disagrees with real sockets for {item}: virtual {virt} / {vwire} real {real} / {rwire}")
 
 
 def replay_doc(doc: dict[str, Any], pid: str) -> Result:
